@@ -48,8 +48,11 @@ import (
 	"time"
 
 	"github.com/insomniacslk/dhcp/dhcpv4"
+	"github.com/insomniacslk/dhcp/dhcpv4/ztpv4"
 	"github.com/insomniacslk/dhcp/dhcpv6"
+	"github.com/insomniacslk/dhcp/dhcpv6/ztpv6"
 	"github.com/insomniacslk/dhcp/iana"
+	"github.com/insomniacslk/dhcp/netboot"
 	"github.com/insomniacslk/dhcp/rfc1035label"
 	"github.com/u-root/uio/uio"
 )
@@ -724,6 +727,37 @@ func roMethods(ni int, n roNode, r *Rng, tags map[string]int) []*roMethod {
 			continue
 		}
 		out = append(out, &roMethod{node: ni, name: full, fn: n.ptr.Method(i), args: args})
+	}
+	// the package-level read functions that take the value as their argument - MAC
+	// extraction, relay decapsulation, transaction id, the netboot and ZTP extractors -
+	// are reads like any accessor method (seeded change C20-15: ExtractMAC rewriting
+	// the peer address of the relay message it reads)
+	add := func(name string, fn any, args ...any) {
+		vs := make([]reflect.Value, len(args))
+		for i, a := range args {
+			vs[i] = reflect.ValueOf(a)
+		}
+		out = append(out, &roMethod{node: ni, name: name, fn: reflect.ValueOf(fn), args: vs})
+	}
+	switch v := n.ptr.Interface().(type) {
+	case *dhcpv6.Message:
+		add("dhcpv6.ExtractMAC", dhcpv6.ExtractMAC, dhcpv6.DHCPv6(v))
+		add("dhcpv6.GetTransactionID", dhcpv6.GetTransactionID, dhcpv6.DHCPv6(v))
+		add("dhcpv6.DecapsulateRelay", dhcpv6.DecapsulateRelay, dhcpv6.DHCPv6(v))
+		add("netboot.GetNetConfFromPacketv6", netboot.GetNetConfFromPacketv6, v)
+		add("ztpv6.ParseVendorData", ztpv6.ParseVendorData, dhcpv6.DHCPv6(v))
+	case *dhcpv6.RelayMessage:
+		add("dhcpv6.ExtractMAC", dhcpv6.ExtractMAC, dhcpv6.DHCPv6(v))
+		add("dhcpv6.GetTransactionID", dhcpv6.GetTransactionID, dhcpv6.DHCPv6(v))
+		add("dhcpv6.DecapsulateRelay", dhcpv6.DecapsulateRelay, dhcpv6.DHCPv6(v))
+		add("dhcpv6.DecapsulateRelayIndex(-1)", dhcpv6.DecapsulateRelayIndex, dhcpv6.DHCPv6(v), -1)
+		add("dhcpv6.DecapsulateRelayIndex(1)", dhcpv6.DecapsulateRelayIndex, dhcpv6.DHCPv6(v), 1)
+		add("ztpv6.ParseVendorData", ztpv6.ParseVendorData, dhcpv6.DHCPv6(v))
+		add("ztpv6.ParseRemoteID", ztpv6.ParseRemoteID, dhcpv6.DHCPv6(v))
+	case *dhcpv4.DHCPv4:
+		add("netboot.GetNetConfFromPacketv4", netboot.GetNetConfFromPacketv4, v)
+		add("ztpv4.ParseVendorData", ztpv4.ParseVendorData, v)
+		add("ztpv4.ParseCircuitID", ztpv4.ParseCircuitID, v)
 	}
 	return out
 }
